@@ -1,10 +1,6 @@
 // replay for property C08, harness population::elitism::verif_kani_proofs::c08_elitism_add_all_k0_n2_max1 (crate rosomaxa, proof module elitism)
 // failed: assertion failed: le(pop.individuals[0].f, seen[j].f) @ elitism_proofs.rs:56
 // run: /verif/check --replay /verif/replays/C08/c08_elitism_add_all_k0_n2_max1.rs
-/// Test generated for harness `population::elitism::verif_kani_proofs::c08_elitism_add_all_k0_n2_max1` 
-///
-/// Check for `cover`: "improved-by-batch"
-
 #[test]
 fn kani_concrete_playback_c08_elitism_add_all_k0_n2_max1_8700626268541455115() {
     let concrete_vals: Vec<Vec<u8>> = vec![
@@ -23,10 +19,6 @@ fn kani_concrete_playback_c08_elitism_add_all_k0_n2_max1_8700626268541455115() {
     ];
     kani::concrete_playback_run(concrete_vals, c08_elitism_add_all_k0_n2_max1);
 }
-
-/// Test generated for harness `population::elitism::verif_kani_proofs::c08_elitism_add_all_k0_n2_max1` 
-///
-/// Check for `assertion`: "assertion failed: le(pop.individuals[0].f, seen[j].f)"
 
 #[test]
 fn kani_concrete_playback_c08_elitism_add_all_k0_n2_max1_15211440022716914430() {
